@@ -211,6 +211,26 @@ def tokens_from_case(case):
     return toks
 
 
+def char_tokens(cp):
+    c = chr(cp)
+    return [[chars("a" + c + c + "b")], [chars(c)], [chars(" " + c + " "), st("pre"), chars(c + c), et("pre")], [chars("a" + c), chars(c + "b")]]
+
+
+def _char_shard(args):
+    lo, hi = args
+    n, viol = 0, {}
+    for cp in range(lo, hi):
+        if 0xD800 <= cp <= 0xDFFF:
+            continue
+        for k, toks in enumerate(char_tokens(cp)):
+            n += 1
+            j = judge(toks)
+            if j is not None and ("chars:" + j[1]) not in viol:
+                viol["chars:" + j[1]] = engine.Violation(H, {"mode": "chars"}, [{"codepoint": cp, "shape": k}], "reference transducer output",
+                                                         j[2], j[0] + " (U+%04X)" % cp, "chars:" + j[1])
+    return n, viol
+
+
 _VOID = frozenset("area base br col embed hr img input link meta param source track wbr".split())
 
 
@@ -221,6 +241,9 @@ def name_tokens(name):
 
 
 def execute(config, case):
+    if config.get("mode") == "chars":
+        j = judge(char_tokens(case[0]["codepoint"])[case[0]["shape"]])
+        return None if j is None else engine.Violation(H, config, case, "reference", j[2], j[0], "chars:" + j[1])
     if config.get("mode") == "names":
         j = judge(name_tokens(case[0]["name"]))
         return None if j is None else engine.Violation(H, config, case, "reference", j[2], j[0], "names:" + j[1])
@@ -312,6 +335,16 @@ def run(run):
     for k, v in seen.items():
         if k.startswith("names:"):
             run.violation(v)
+    # character sweep: which characters are whitespace is decided per character: every BMP code point (and a few astral
+    # ones) inside, at the ends of and alone in a text token
+    nchar = 0
+    for n, viol in engine.pmap(_char_shard, [(lo, min(lo + 4096, 0x10000)) for lo in range(0, 0x10000, 4096)] + [(0x1F600, 0x1F601), (0xE0020, 0xE0021)], chunksize=1):
+        nchar += n
+        for cls, v in viol.items():
+            if cls not in seen:
+                seen[cls] = v
+                run.violation(v)
+    run.set("character_sweep_streams", nchar)
     arb = {}
     for r in engine.pmap(_arb_shard, range(len(ARB)), chunksize=1):
         run.add("arbitrary_streams", r["evals"])
